@@ -184,6 +184,9 @@ func (cat *Catalog) BuildKnowledgeBase() (*KnowledgeBase, error) {
 					return nil, err
 				}
 				dLen := binary.LittleEndian.Uint64(length)
+				if dLen > uint64(buffer.Len()) {
+					return nil, fmt.Errorf("string constant length %d exceeds the %d bytes stored for it", dLen, buffer.Len())
+				}
 				byteArr := make([]byte, dLen)
 				_, err = buffer.Read(byteArr)
 				if err != nil {
@@ -765,14 +768,14 @@ func (cat *Catalog) ReadCatalogFromReader(reader io.Reader) error {
 
 			return err
 		}
-		content := make([]string, incount)
+		content := make([]string, 0)
 		for subIndex := uint64(0); subIndex < incount; subIndex++ {
 			str, err := ReadStringFromReader(reader)
 			if err != nil {
 
 				return err
 			}
-			content[subIndex] = str
+			content = append(content, str)
 		}
 		cat.MemoryExpressionVariableMap[key] = content
 	}
@@ -796,14 +799,14 @@ func (cat *Catalog) ReadCatalogFromReader(reader io.Reader) error {
 
 			return err
 		}
-		content := make([]string, incount)
+		content := make([]string, 0)
 		for subIndex := uint64(0); subIndex < incount; subIndex++ {
 			str, err := ReadStringFromReader(reader)
 			if err != nil {
 
 				return err
 			}
-			content[subIndex] = str
+			content = append(content, str)
 		}
 		cat.MemoryExpressionAtomVariableMap[key] = content
 	}
@@ -1197,14 +1200,14 @@ func (meta *ArgumentListMeta) ReadMetaFrom(reader io.Reader) error {
 		return err
 	}
 
-	meta.ArgumentASTIDs = make([]string, integer)
+	meta.ArgumentASTIDs = make([]string, 0)
 	for index := uint64(0); index < integer; index++ {
 		s, err := ReadStringFromReader(reader)
 		if err != nil {
 
 			return err
 		}
-		meta.ArgumentASTIDs[index] = s
+		meta.ArgumentASTIDs = append(meta.ArgumentASTIDs, s)
 	}
 
 	return nil
@@ -1549,13 +1552,12 @@ func (meta *ConstantMeta) ReadMetaFrom(reader io.Reader) error {
 
 		return err
 	}
-	byteArr := make([]byte, length)
-	readCount, err := reader.Read(byteArr)
+	byteArr, err := io.ReadAll(io.LimitReader(reader, int64(length)))
 	if err != nil {
 
 		return err
 	}
-	if uint64(readCount) != length {
+	if uint64(len(byteArr)) != length {
 
 		return io.ErrShortBuffer
 	}
@@ -2261,14 +2263,14 @@ func (meta *ThenExpressionListMeta) ReadMetaFrom(reader io.Reader) error {
 		return err
 	}
 
-	meta.ThenExpressionIDs = make([]string, count)
+	meta.ThenExpressionIDs = make([]string, 0)
 	for index := uint64(0); index < count; index++ {
 		s, err := ReadStringFromReader(reader)
 		if err != nil {
 
 			return err
 		}
-		meta.ThenExpressionIDs[index] = s
+		meta.ThenExpressionIDs = append(meta.ThenExpressionIDs, s)
 	}
 
 	return nil
@@ -2567,12 +2569,15 @@ func ReadStringFromReader(reader io.Reader) (string, error) {
 		return "", err
 	}
 	strLen := binary.LittleEndian.Uint64(length)
-	strByte := make([]byte, int(strLen))
-	counter, err = io.ReadFull(reader, strByte)
-	TotalRead += uint64(counter)
+	strByte, err := io.ReadAll(io.LimitReader(reader, int64(strLen)))
+	TotalRead += uint64(len(strByte))
 	if err != nil {
 
 		return "", err
+	}
+	if uint64(len(strByte)) != strLen {
+
+		return "", io.ErrUnexpectedEOF
 	}
 	ReadCount++
 
